@@ -105,6 +105,9 @@ func c18MapGuard(p *core.Program, r *core.Report) {
 		var bad []string
 		n := 0
 		for _, ac := range fl.Accesses {
+			if ac.Alias && !tl.ElemWritten[ac.Field] {
+				continue // the map is replaced, never written in place: a snapshot reference is safe to read
+			}
 			if ac.Field != "m" {
 				continue
 			}
